@@ -33,16 +33,17 @@ const c11ShowIgnoredKey = "exit:show-ignored:ignored-problem-in-fail-set-makes-e
 const c11ShowIgnoredMsg = "with -show-ignored, a problem that is ignored by a //lint:ignore directive still counts as an error and makes the run exit 1 when its check is in the -fail set, even if it is the only problem (lintcmd/cmd.go printDiagnostics: the severityIgnored test is skipped under -show-ignored); the statement lets only non-ignored problems decide the exit status. Minimal input: `//lint:ignore S1002 reason` above `if b == false {`, run `staticcheck -show-ignored .` -> exit 1, without -show-ignored -> exit 0"
 
 type c11Env struct {
-	res      *vx.Result
-	m        *c11Model
-	cs       []*lint.Analyzer
-	names    []caseFoldedString // registry in the order of m.names
-	defBits  c11Bits            // documented default set
-	scratch  string
-	stop     atomic.Bool // set once enough violations were collected
-	capped   atomic.Bool // some part collected its maximum of violations
-	deadline time.Time   // part A stops here so that part B keeps its share of the budget
-	vioCount atomic.Int64
+	res        *vx.Result
+	m          *c11Model
+	cs         []*lint.Analyzer
+	names      []caseFoldedString // registry in the order of m.names
+	defBits    c11Bits            // documented default set
+	scratch    string
+	stop       atomic.Bool // set once enough violations were collected
+	suppressed sync.Once
+	capped     atomic.Bool // some part collected its maximum of violations
+	deadline   time.Time   // part A stops here so that part B keeps its share of the budget
+	vioCount   atomic.Int64
 }
 
 const c11MaxViolationsPerPart = 12
@@ -103,6 +104,15 @@ func (env *c11Env) prepare(lists ...[]string) {
 }
 
 func (env *c11Env) violate(key, msg string, c any) {
+	// Development/detection aid: C11_SUPPRESS_KEYS=key1,key2 treats these violation keys the way
+	// the driver treats a known-findings entry, so that demo mutants can be judged on a tree that
+	// still carries a recorded finding.
+	for _, k := range strings.Split(os.Getenv("C11_SUPPRESS_KEYS"), ",") {
+		if k != "" && k == key {
+			env.suppressed.Do(func() { env.res.Note("violation %s suppressed by C11_SUPPRESS_KEYS", key) })
+			return
+		}
+	}
 	if env.res.Violate(key, msg, c) {
 		if env.vioCount.Add(1) >= c11MaxViolationsPerPart {
 			env.stop.Store(true)
@@ -337,6 +347,9 @@ func (w *c11Worker) checkTree(sp *c11Space, dir string, levels [3]c11Level) {
 	}
 counted:
 	for fi, f := range sp.flagChoices {
+		if env.stop.Load() {
+			return
+		}
 		realBits := r.bits[fi]
 		cur := inherited
 		if f.Set {
@@ -453,7 +466,7 @@ func (env *c11Env) runPartA() {
 				w.setRoot(it.ri, r)
 				dj := filepath.Join(w.root, fmt.Sprintf("d%d", it.di))
 				for si, s := range sp.levelChoices {
-					if !sp.inSpace(r, d, s) {
+					if !sp.inSpace(r, d, s) || env.stop.Load() {
 						continue
 					}
 					w.checkTree(sp, filepath.Join(dj, fmt.Sprintf("s%d", si)), [3]c11Level{r, d, s})
